@@ -70,6 +70,8 @@ def worker_main(pid, descs_path, out_path):
                     raise
             t1 = resource.getrusage(resource.RUSAGE_SELF)
             res['cpu_s'] = t1.ru_utime + t1.ru_stime - t0
+            if not res.get('viol'):
+                res.pop('case', None)        # the materialised case is only needed in a replay file
             res['i'] = i
             res['desc'] = desc
             out.write(json.dumps(res, default=_default) + '\n')
